@@ -21,6 +21,7 @@ RULE = (
     "parse+rebuild returns or raises ValueError/NixSyntaxError, nothing else; deterministic work counter (Python call events inside "
     "nix_manipulator, sys.setprofile) obeys work(2d) <= 20*work(d). Non-trivial = erroneous text, or text with trivia, or a family "
     "measurement; distinct by SHA-1."
+    ' Mode `layout` re-lays-out every whitespace gap of a valid program (line breaks, CRLF, comments, random tails). 103 indentation-length families (`ind:`) indent an own-line comment by 8d blanks in every gap of 16 small programs.'
 )
 ASSUMPTIONS = [
     "inputs stay below 250 lines and 250 bytes per line: py-tree-sitter 0.26.0 hands out a borrowed reference from Point.row/column for values > 256 (interpreter heap corruption); outside the library's control",
